@@ -26,7 +26,11 @@ VARIABLES i, fin
 vars == <<i, fin>>
 
 RangeS(s) == {s[j] : j \in DOMAIN s}
-Anc == LET F[c \in 1..NC] == {c} \cup UNION {F[p] : p \in RangeS(Par[c])} IN F
+Anc0 == LET F[c \in 1..NC] == {c} \cup UNION {F[p] : p \in RangeS(Par[c])} IN F
+(* classes that are (virtual) subclasses of each other, e.g. two structurally identical protocols *)
+Eqv == {<<Tab.equiv[j][1], Tab.equiv[j][2]>> : j \in DOMAIN Tab.equiv}
+Anc == [c \in 1..NC |-> Anc0[c] \cup {e[2] : e \in {e \in Eqv : e[1] \in Anc0[c]}}
+                              \cup {e[1] : e \in {e \in Eqv : e[2] \in Anc0[c]}}]
 HasAttr(c, name) == \E a \in Anc[c] : name \in RangeS(Tab.attrs[a])
 
 Opp(o) == IF o = "LESS" THEN "MORE" ELSE IF o = "MORE" THEN "LESS" ELSE o
@@ -41,7 +45,8 @@ IsCls(j) == T[j].k = "cls"
 ClsSub(a, b) == IF T[a].c = 0 \/ T[b].c = 0
                 THEN a = b \/ (T[b].c = 1)
                 ELSE T[b].c \in Anc[T[a].c]
-ClsOrder(a, b) == IF a = b THEN "SAME" ELSE IF ClsSub(a, b) THEN "LESS" ELSE IF ClsSub(b, a) THEN "MORE" ELSE "NONE"
+ClsOrder(a, b) == IF a = b \/ (ClsSub(a, b) /\ ClsSub(b, a)) THEN "SAME"
+                  ELSE IF ClsSub(a, b) THEN "LESS" ELSE IF ClsSub(b, a) THEN "MORE" ELSE "NONE"
 
 (* documented meaning of a static type on a class (C13) *)
 RECURSIVE Sat(_, _)
@@ -53,6 +58,7 @@ Sat(j, c) ==
     [] t.k = "exactly"   -> c = t.c
     [] t.k = "strict"    -> t.c \in Anc[c] /\ c # t.c
     [] t.k = "hasmethod" -> HasAttr(c, t.name)
+    [] t.k = "deferred"  -> t.c \in Anc[c]     \* a class of the named module that is a subclass of the named class
     [] OTHER -> FALSE
 
 Static(j) == T[j].k \in {"cls", "union", "inter", "exactly", "strict", "hasmethod"}
